@@ -61,6 +61,19 @@ Section Spec.
              (enum_counts cands struct).
 End Spec.
 
+(* ---- the combination a point of the model stands for ---- *)
+(* sum of a quantity over the copies 0 .. ncopies-1 of an allele; number of selected copies (as the sum of the selectors) *)
+Definition copy_sum (struct : list (str * Z)) (g : allele * Z -> Q) (al : allele) : Q :=
+  qsum (map (fun j => g (al, Z.of_nat j)) (seq 0 (ncopies struct al))).
+Definition cnt_of_asg (struct : list (str * Z)) (a : asg) (al : allele) : Q := copy_sum struct (fun sl => a (vA sl)) al.
+Definition nov_of_asg (a : asg) (m : mut) : Q := a (kN m).
+(* the same as data: copies per candidate (selectors equal to 1) and the list of novel variants *)
+Definition zcount (struct : list (str * Z)) (a : asg) (al : allele) : Z :=
+  Z.of_nat (length (filter (fun j => Qeqb (a (kA (a_name al) (Z.of_nat j))) 1) (seq 0 (ncopies struct al)))).
+Definition counts_of_asg (cands : list allele) (struct : list (str * Z)) (a : asg) : list (str * Z) :=
+  map (fun al => (a_name al, zcount struct a al)) cands.
+Definition novel_of_asg (fm : list mut) (a : asg) : list mut := filter (fun m => Qeqb (a (kN m)) 1) fm.
+
 Fixpoint qmin (l : list Q) : option Q :=
   match l with
   | [] => None
@@ -165,3 +178,22 @@ Definition holds (c : consts) (I : inst) (rep : list report) : list bool :=
   let cn := map a_name (cands_cv I cv) in
   [h_copies I rep; h_xor I fm rep; h_score c I cv fm rep; h_optimal all rep; h_complete cn rn rep; h_within cn rn rep].
 Definition o_holds (c : consts) (I : inst) (rep : list report) : out := o_list o_bool (holds c I rep).
+
+(* ---- decidable hypotheses of the noise-free clause: [counts] (name, copies > 0) is a planted multiset of candidates,
+        the filtered evidence shows every observed core variant and every reference site with exactly the planted
+        number of copies, and every observed core variant is carried by a planted allele ---- *)
+Definition planted_ok (c : consts) (I : inst) (counts : list (str * Z)) : list bool :=
+  let cv := mcov I in
+  let fm := fm_cv I cv in
+  let cands := cands_cv I cv in
+  let cnt := cnt_of counts in
+  [ forallb (fun kv : str * Z => memb str_eqb (fst kv) (map a_name cands) && (0 <? snd kv)) counts && nodupb str_eqb (map fst counts);
+    forallb (fun kv : str * Z => cfg_count cands counts (fst kv) =? snd kv) (i_struct I);
+    forallb (fun m => Qeqb (obs_cv I cv m) (carriers cands cnt m)) fm;
+    forallb (fun pos => Qeqb (obs_cv I cv (ref_mut pos)) (refcopies cands (hascov I) cnt pos)) (sites fm);
+    forallb (fun m => negb (Qeqb (carriers cands cnt m) 0)) fm ].
+
+(* ---- C15: the same instance with another per-base evidence table (the indel table, produced by the realigner, is kept) ---- *)
+Definition set_tab (I : inst) (t : table) : inst :=
+  {| i_alleles := i_alleles I; i_struct := i_struct I; i_muts := i_muts I; i_pcn := i_pcn I; i_hascov := i_hascov I;
+     i_cover := {| cv_tab := t; cv_ind := cv_ind (i_cover I) |}; i_par := i_par I; i_major_novel := i_major_novel I; i_gap := i_gap I |}.
